@@ -305,7 +305,13 @@ int main(int argc, char **argv)
 	if (argc >= 4 && !strcmp(argv[1], "hist")) {
 		/* history FN list (the same formula in c07.py): boundaries + 300 FN spread over the T1R cycle */
 		static const uint32_t fix[] = { 0, 1, 2, 25, 26, 50, 51, 52, 1325, 1326, 1327, 84863, 84864, 84865,
-			65535, 65536, 65537, 1048575, 1048576, HYPER / 2, HYPER - 1327, HYPER - 1326, HYPER - 2, HYPER - 1 };
+			65535, 65536, 65537, 1048575, 1048576, HYPER / 2, HYPER - 1327, HYPER - 1326, HYPER - 2, HYPER - 1,
+			/* T1 beyond the T1R cycle, each bit of T1 above bit 5 on its own: T1 = 64, 65, 127, 128, 192, 256, 512, 1024, 1536 */
+			64 * SUPER, 64 * SUPER + 700, 64 * SUPER + 1325, 65 * SUPER, 65 * SUPER + 700, 65 * SUPER + 1325,
+			127 * SUPER, 127 * SUPER + 700, 127 * SUPER + 1325, 128 * SUPER, 128 * SUPER + 700, 128 * SUPER + 1325,
+			192 * SUPER, 192 * SUPER + 700, 192 * SUPER + 1325, 256 * SUPER, 256 * SUPER + 700, 256 * SUPER + 1325,
+			512 * SUPER, 512 * SUPER + 700, 512 * SUPER + 1325, 1024 * SUPER, 1024 * SUPER + 700, 1024 * SUPER + 1325,
+			1536 * SUPER, 1536 * SUPER + 700, 1536 * SUPER + 1325 };
 		enum { NFIX = sizeof(fix) / sizeof(fix[0]), NSPREAD = 300 };
 		unsigned long hflav[NFLAVOUR] = { 0 };
 		unsigned lo = atoi(argv[2]), hi = atoi(argv[3]), idx, b;
